@@ -294,7 +294,7 @@ func runC20(c *fw.Ctx) {
 	}
 	c.Bound("ops", names)
 	c.SetRule("one repository instance (its storage keeps the index cache) over mcfs, in two clock configurations (ticking: every mutating call gets a new timestamp; frozen: all of go-git's writes fall into the timestamp granule the index file already has, so only the size can invalidate the cache after go-git's own writes); all sequences up to depth over 16 worktree operations (Add of an existing/new path, Add(All), AddGlob, Remove, RemoveGlob, Move, Commit, Commit(All), Reset hard/mixed/merge, Restore(staged), sparse and plain Checkout, Status), one direct storer call (SetIndex, after which the caller keeps editing the value it passed) and 8 external rewrites of .git/index (a git-written version-4 index with cached-tree, resolve-undo and end-of-index-entry extensions, new size+new mtime, same size+new mtime, larger/smaller size+same mtime, same size+OLDER mtime, file deleted, file truncated to an undecodable one); after EVERY step the value of Storer.Index() is compared, field by field, in entry order and including extensions, with an independent decode of the bytes currently on disk; additionally for every sequence the LAST go-git operation is re-run with each of its filesystem calls failing once (EIO on mutating calls, on stat/open of worktree files and on stat/open/fstat/read of the index file itself) and the comparison is repeated after the failed call, once with the cache warmed by a prior Index() and once cold (the failing operation performs the first index read of the instance); distinct = distinct (clock configuration, sequence outcome, index content) pairs")
-	c.Assume("rewrites that change neither size nor mtime are outside the statement; Index.ModTime (in-memory stamp) is excluded from the comparison; mcfs clock ticks per mutating call")
+	c.Assume("rewrites that change neither size nor mtime are outside the statement; Index.ModTime (in-memory stamp) is excluded from the comparison; the mcfs clock ticks per mutating call (ticking configuration) or only when an external rewrite says so (frozen configuration)")
 	seqs := fw.Seqs(len(ops), depth)
 	clocks := []string{"ticking", "frozen"}
 	c.Bound("clock_configurations", clocks)
